@@ -53,3 +53,23 @@ Proof. vm_compute. reflexivity. Qed.
 Example ex_bad_overlap : history_ok
   [LCall 0 OpRebuild; LCall 1 OpRebuild; LStart 0; LStart 1] = false.
 Proof. vm_compute. reflexivity. Qed.
+
+(* ---- plugin callbacks: a concrete build of the model ---- *)
+From V Require Import C20.PluginSpec C20.Plugin.
+Definition ex_build : list bact :=
+  [AStartBegin 1%nat; AStartBegin 0%nat; AStartEnd 0%nat; AStartEnd 1%nat; ABarrier;
+   AVisit 0%nat; AResolve; ALoad 0%nat; AVisit 1%nat; AVisit 2%nat; AVisit 1%nat; ALoad 2%nat; AResolve; ALoad 1%nat; AVisit 0%nat;
+   AWrite; AEndBegin; AEndEnd false; AEndBegin; AEndEnd true].
+Example ex_build_trace :
+  option_map snd (brun 2 3 bst0 ex_build) =
+  Some [PSB 1; PSB 0; PSE 0; PSE 1; PRes; PLoad 0; PLoad 2; PRes; PLoad 1; PEB 0 true; PEE 0 false; PEB 1 true; PEE 1 true].
+Proof. vm_compute. reflexivity. Qed.
+Example ex_build_ok : build_trace_ok 2 3 [PSB 1; PSB 0; PSE 0; PSE 1; PRes; PLoad 0; PLoad 2; PRes; PLoad 1; PEB 0 true; PEE 0 false; PEB 1 true; PEE 1 true] = true.
+Proof. vm_compute. reflexivity. Qed.
+(* the checker discriminates *)
+Example ex_build_bad_barrier : build_trace_ok 2 1 [PSB 0; PSE 0; PSB 1; PLoad 0; PSE 1] = false.
+Proof. vm_compute. reflexivity. Qed.
+Example ex_build_bad_twice : build_trace_ok 1 1 [PSB 0; PSE 0; PLoad 3; PLoad 3] = false.
+Proof. vm_compute. reflexivity. Qed.
+Example ex_build_bad_onend : build_trace_ok 1 2 [PSB 0; PSE 0; PEB 0 true; PEE 0 true; PEB 1 true] = false.
+Proof. vm_compute. reflexivity. Qed.
